@@ -36,7 +36,7 @@ type C15Case struct {
 	Shapes [][]int `json:"shapes,omitempty"` // positional types (distinct within a shape) per shape
 	Named  []bool  `json:"namedShape,omitempty"`
 	Ptr    []bool  `json:"ptrShape,omitempty"` // struct-form shapes taking/returning a POINTER to the struct
-	Hs     []int   `json:"hs,omitempty"` // handle -> shape
+	Hs     []int   `json:"hs,omitempty"`       // handle -> shape
 	Ops    []ObjOp `json:"ops,omitempty"`
 }
 
